@@ -232,14 +232,21 @@ def sAtoms : List Stmt :=
 
 def cE : Expr := .id "c"
 
+def forInits : List ForInit :=
+  [.none, .expr (.id "i"), .decl "i" (.const "int" "0"), .decl2 "i" (.const "int" "0") "j"]
+
+/-- every combination of init form x condition present/absent x step present/absent -/
+def forWraps : List (Stmt → Stmt) :=
+  forInits.flatMap fun ini =>
+    [fun s => Stmt.for_ ini none none s, fun s => .for_ ini (some cE) none s,
+     fun s => .for_ ini none (some (.post "++" (.id "i"))) s,
+     fun s => .for_ ini (some cE) (some (.post "++" (.id "i"))) s]
+
 /-- wrappers with one substatement -/
 def sWrap1 : List (Stmt → Stmt) :=
   [fun s => .ifThen cE s, fun s => .while_ cE s, fun s => .doWhile s cE,
-   fun s => .for_ .none none none s, fun s => .for_ (.expr (.id "i")) (some cE) (some (.post "++" (.id "i"))) s,
-   fun s => .for_ (.decl "i" (.const "int" "0")) (some cE) none s,
    fun s => .switch_ cE s, fun s => .case_ (.const "int" "1") s, fun s => .default_ s,
-   fun s => .label "L" s, fun s => .compound [s], fun s => mkPragmaThen ["p"] s,
-   fun s => .for_ (.decl2 "i" (.const "int" "0") "j") none none s]
+   fun s => .label "L" s, fun s => .compound [s], fun s => mkPragmaThen ["p"] s] ++ forWraps
 
 def okThen (t : Stmt) : Bool := !t.openIf
 
